@@ -110,6 +110,16 @@ Theorem C23_powmod_zero_modulus : forall p a n, (1 <= n)%Z -> powmod p a n (Some
 Proof. exact powmod_zero_modulus. Qed.
 Print Assumptions C23_powmod_zero_modulus.
 
+(** negative exponents as coded: invert first (ZeroDivisionError if not invertible), then the positive power;
+    without modulus a negative exponent raises ValueError *)
+Theorem C23_powmod_neg_as_coded_partial : forall p a n b, (1 <= n)%Z ->
+  powmod p a (- n) (Some b) = bind (invert p a b) (fun a' => powmod p a' n (Some b)).
+Proof. exact powmod_neg_eq. Qed.
+Print Assumptions C23_powmod_neg_as_coded_partial.
+Theorem C23_powmod_neg_no_modulus : forall p a n, (n < 0)%Z -> powmod p a n None = ValueErr.
+Proof. exact powmod_neg_no_modulus. Qed.
+Print Assumptions C23_powmod_neg_no_modulus.
+
 (** (f) the binary class refines the list class at p = 2 (addition/subtraction = xor) *)
 Theorem C23_gf2x_add_refines : forall a b, (0 <= a)%Z -> (0 <= b)%Z -> bits (add2 a b) = add 2 (bits a) (bits b).
 Proof. exact bits_add2. Qed.
